@@ -97,6 +97,12 @@ impl<T> HSet<T> {
 }
 
 impl<V> PMap<V> {
+    #[verifier::external_body]
+    pub fn insert(&mut self, k: SynTypePath, v: V) -> (old_v: Option<V>) ensures final(self)@ == old(self)@.insert(k, v) { unimplemented!() }
+
+    #[verifier::external_body]
+    pub fn contains_key(&self, k: &SynTypePath) -> (r: bool) ensures r == self@.contains_key(*k) { unimplemented!() }
+
     /// `HashMap::entry(k).or_default()`: a mutable reference to the value for `k` (inserted as `V::default()` if absent);
     /// when the borrow ends the map holds whatever was written through it
     #[verifier::external_body]
